@@ -27,7 +27,7 @@ TITLE = 'METAL = inlining'
 LEVEL = 'exploration'
 SHARDS = {'quick': 16, 'thorough': 16}
 FLOOR = {'quick': 800, 'thorough': 10000}
-REQUIRED_MONITORS = {'pairs-compared': 2000, 'uses-with-fillers': 800, 'extend-chains': 150, 'switch-boundary-compared': 100, 'history-uses-compared': 100, 'translation-block-slots-compared': 100}
+REQUIRED_MONITORS = {'pairs-compared': 2000, 'uses-with-fillers': 800, 'extend-chains': 150, 'switch-boundary-compared': 100, 'history-uses-compared': 100, 'translation-block-slots-compared': 100, 'whole-template-uses-compared': 300}
 RULE = ('a case = (library of 1..3 macros with 0..3 define-slot regions each - repeated slot names allowed, nested uses of '
         'earlier macros inside bodies, extend-macro chains up to length 3 - , caller with 1..3 uses filling random subsets of '
         'slots plus unknown names, uses inside tal:repeat / tal:define, two consecutive uses in one scope, local and global '
@@ -115,6 +115,8 @@ def ser_items(items, ref):
             out += '<d tal:define="global %s \'%s\'"/>' % (it[1], it[2])
         elif k == 'rep':
             out += '<tal:r repeat="r (1, 2)">%s</tal:r>' % ser_items(it[1], ref)
+        elif k == 'inmacro':
+            out += '<m metal:define-macro="%s">%s</m>' % (it[1], ser_items(it[2], ref))
         elif k == 'use':
             out += '<u metal:use-macro="%s">%s</u>' % (ref(it[1]), ''.join(
                 '<f metal:fill-slot="%s">%s</f>' % (sl, ser_items(b, ref)) for sl, b in it[2].items()))
@@ -140,6 +142,8 @@ def slot_names(items, acc=None):
             slot_names(it[3], acc)
         elif it[0] == 'rep':
             slot_names(it[1], acc)
+        elif it[0] == 'inmacro':
+            slot_names(it[2], acc)
     return acc
 
 
@@ -177,6 +181,8 @@ class Inliner:
                     # the alternate model is stateful (fillers are consumed): unroll the two iterations
                     for r in (1, 2):
                         out += '<tal:r define="r %d">%s</tal:r>' % (r, self.items(it[1], fillers, scope))
+            elif k == 'inmacro':
+                out += '<m>%s</m>' % self.items(it[2], fillers, scope)
             elif k == 'use':
                 sub = {sl: '<f>%s</f>' % self.items(b, fillers, scope) for sl, b in it[2].items()}
                 out += self.use(it[1], sub, scope)
@@ -379,6 +385,77 @@ def run(ctx):
     layer_switch_across_boundaries(ctx, 12 if ctx.quick else 100)
     layer_redefinition_histories(ctx, 10 if ctx.quick else 120)
     layer_slots_in_translation_blocks(ctx, 12 if ctx.quick else 150)
+    layer_whole_template(ctx, 30 if ctx.quick else 500)
+
+
+
+def layer_whole_template(ctx, n):
+    """A whole template given to metal:use-macro (a template object in a variable, or load: of a file): its
+    define-slot regions stand in the template body outside any define-macro (plus one inside a macro that the body
+    renders in place); the use equals the body inlined with those regions filled."""
+    rng = ctx.rng
+    tmp = tempfile.mkdtemp(prefix='c09w_')
+    try:
+        for case in range(n):
+            g = Gen(rng)
+            body = []
+            while not slot_names(body):
+                body = g.items(0, True, [], 'W')
+            # top-level regions use s1/s2; the macro rendered in place inside the body has a region of its own
+            def rename(items):
+                out = []
+                for it in items:
+                    if it[0] == 'slot':
+                        it = ('slot', 's1' if it[1] == 's3' else it[1], rename(it[2])) + tuple(it[3:])
+                    elif it[0] == 'ldef':
+                        it = it[:3] + (rename(it[3]),)
+                    elif it[0] == 'rep':
+                        it = ('rep', rename(it[1]))
+                    out.append(it)
+                return out
+            body = rename(body)
+            if rng.random() < .5:
+                body.insert(rng.randint(0, len(body)), ('inmacro', 'im', [('text', 'IM'), ('slot', 's3', [('text', 'IMD'), g.rec()]), g.rec()]))
+            placement = rng.choice(['variable', 'file'])
+            name = 'W' if placement == 'variable' else 'load: w.pt'
+            W = Macro('W', body)
+            ref = lambda m: name
+            uses = []
+            for _ in range(rng.choice([1, 1, 2])):
+                uses.append(g.use(W, 0, 'C'))
+            wsrc = '<w>' + ser_items(body, ref) + '</w>'
+            wrap = rng.choice(['%s', '<tal:r repeat="r (1, 2)">%s</tal:r>', '<d tal:define="a \'CA\'">%s</d>'])
+            callsrc = '<x>' + PROBE + wrap % ser_items(uses, ref) + PROBE + '</x>'
+            inl_i = Inliner(ref, True)
+            inl_uses = ''
+            for u in uses:
+                fillers = {sl: ('<f>%s</f>' % inl_i.items(u[2][sl], {}, None) if sl in u[2] else None) for sl in slot_names(body)}
+                inl_uses += '<tal:mn define="macroname string:%s"><w>%s</w></tal:mn>' % (name, inl_i.items(body, fillers, None))
+            inl = '<x>' + PROBE + wrap % inl_uses + PROBE + '</x>'
+            env = rng.choice([{}, {'a': 'ENVa'}, {'b': 'ENVb', 'g': 'ENVg'}])
+            if placement == 'variable':
+                from chameleon import PageTemplate
+                got = render(callsrc, dict(env, W=PageTemplate(wsrc)))
+            else:
+                d = os.path.join(tmp, 'w%d' % (case % 3))
+                os.makedirs(d, exist_ok=True)
+                with open(os.path.join(d, 'w.pt'), 'w') as fh:
+                    fh.write(wsrc)
+                with open(os.path.join(d, 'caller.pt'), 'w') as fh:
+                    fh.write(callsrc)
+                got = render(None, env, files=os.path.join(d, 'caller.pt'))
+            want = render(inl, env)
+            ctx.mon('whole-template-uses-compared')
+            filled = sum(1 for u in uses for sl in u[2] if sl in slot_names(body))
+            ctx.case(key=('whole', shape([W], uses), placement, wrap[:8], tuple(sorted(env))), nontrivial=filled > 0,
+                     sample={'template': wsrc, 'caller': callsrc, 'inlined': inl, 'rendered': got[0]} if case < 2 else None)
+            if got != want:
+                key = 'whole-template-use-differs' if got[0] != want[0] else 'whole-template-use-log-differs'
+                ctx.violation(key, 'a whole template used as a macro (%s), pre-bound %r\n  TEMPLATE %r\n  CALLER %r\n  INLINED %r\n  '
+                              'with METAL %r\n  inlined    %r' % (placement, env, wsrc, callsrc, inl, got, want),
+                              {'kind': 'whole', 'w': wsrc, 'caller': callsrc, 'inlined': inl, 'env': env, 'placement': placement})
+    finally:
+        shutil.rmtree(tmp, ignore_errors=True)
 
 
 def layer_slots_in_translation_blocks(ctx, n):
@@ -536,6 +613,12 @@ def replay(data):
         layer_redefinition_histories(ctx, 60)
         return bool(ctx.violations), '\n'.join(v['what'] for v in ctx.violations) or 'all redefinition histories agree with inlining'
     env = data['env']
+    if data.get('kind') == 'whole':
+        from chameleon import PageTemplate
+        got = render(data['caller'].replace('load: w.pt', 'W'), dict(env, W=PageTemplate(data['w'])))
+        want = render(data['inlined'].replace('load: w.pt', 'W'), env)
+        return got != want, 'TEMPLATE %r\nCALLER %r\nINLINED %r\nwith METAL %r\ninlined %r' % (
+            data['w'], data['caller'], data['inlined'], got, want)
     if data['placement'] == 'other':
         got = render(data['caller'], env, lib=data['lib'])
         want = render(data['inlined'], env)
